@@ -3,7 +3,7 @@ import json, os
 import vlib
 from vlib import Report, tlc, vh_to_file, trace_validate, workdir, log, Infra
 
-C03_WHY = {"writer refuses a bundle it must write", "writer accepts a bundle it must refuse", "writer panics",
+C03_WHY = {"writer refuses a bundle it must write", "writer accepts a bundle it must refuse", "writer panics", "Validate",
            "file does not hold the exchanges of the bundle (dropped / duplicated / mis-attributed / order)",
            "reader does not return what the file holds", "write/read does not reach a byte-identical fixpoint"}
 C04_WHY = {"returned byte count", "output is not a well-formed canonical bundle", "writer panics"}
